@@ -274,8 +274,15 @@ def task_products(params, rec):
             if rng.random() < 0.5:
                 return None
             lo, hi = sorted([float(2.0 ** rng.uniform(-8, 8)), float(2.0 ** rng.uniform(-8, 8))])
-            if rng.random() < 0.25:
+            r_ = rng.random()
+            if r_ < 0.25:
                 lo = -lo  # a range across zero
+            elif r_ < 0.4:
+                # a bound that is zero: as a float of the dtype, a Python float, a Python int, or negative zero on the upper side
+                z = [dt(0), 0.0, 0][int(rng.integers(0, 3))]
+                if rng.random() < 0.5:
+                    return (z, dt(hi))
+                return (dt(-hi), [dt(0), -0.0, 0][int(rng.integers(0, 3))])
             return (dt(lo), dt(hi)) if dt(lo) != dt(hi) else None
 
         # one bound per dimension (the generators take scalars - one bound for every dimension - or tuples); 4 = the two parts of two complex operands
